@@ -3,6 +3,8 @@ import Driver.KindCmd
 import Driver.ParseCmd
 import Driver.C03Cmd
 import Driver.PrintCmd
+import Driver.ObjCmd
+import Driver.OrdCmd
 /-!
 Line-protocol driver: one request per line on stdin, one reply per line on stdout.
 The first word selects the model component; see DESIGN.md §2.4.
@@ -15,6 +17,8 @@ def handle (line : String) : String :=
   | "parse" :: args => parseCmd args
   | "c03" :: args => c03Cmd args
   | "print" :: args => printCmd args
+  | "obj" :: args => objCmd args
+  | "ord" :: args => ordCmd args
   | _ => "bad-op"
 
 partial def loop (hin : IO.FS.Stream) (hout : IO.FS.Stream) : IO Unit := do
